@@ -396,6 +396,15 @@ pub fn run_prop(a: &Args, prop: &str, pnum: u64) {
             let w0: &[&[u32]] = &[&[0], &[0, 1]];
             emit(&mut out, &mut worker, "%start S\n%left 'y'\n%left HIGH\n%token HIGH\n%%\nS: A S 'x' | 'y'; A: %prec HIGH ;", &mut rng, a.thorough, "witness", prop, Some((w0, 1)), None);
         }
+        if prop == "C07" {
+            // k independent choices between two equally cheap repairs: 2^k sequences behind merged search
+            // nodes; the time budget must bound their enumeration too (the parse returns, possibly without
+            // repairs)
+            let k = 24;
+            let g = format!("%start S\n%%\nS: {};\nT: 'a' | 'b';", vec!["T"; k].join(" "));
+            let w0: &[&[u32]] = &[&[], &[0]];
+            emit(&mut out, &mut worker, &g, &mut rng, a.thorough, "witness", prop, Some((w0, 1)), None);
+        }
         // minimised past failures: (grammar, inputs) with unit costs
         let w1: &[&[u32]] = &[&[2, 0, 0], &[2, 0, 0, 0], &[2, 0]];
         emit(&mut out, &mut worker, "%start R0\n%%\nR0: R0 't0' | 't2' 't1';", &mut rng, a.thorough, "witness", prop, Some((w1, 1)), None);
